@@ -607,7 +607,8 @@ impl MleJaccard {
         let jac = dequal as f64 / self.m as f64;
         //
         let solver = GoldenSectionSearch::new(b_inf, b_sup).unwrap();
-        let init_param = jac;
+        // the solver rejects a start outside its bracket [b_inf, b_sup]
+        let init_param = jac.min(b_sup);
         //
         let cost = MleCost::new(dplus as f64, dless as f64, dequal as f64, u, v, self.b);
 
